@@ -289,7 +289,7 @@ def run(tier, V):
                     for k in (err_kinds if tier == 'thorough' else err_kinds[:2]):
                         jobs.append((vi, so, bname, content, edit, want, cmd, 'write:%d:%s,write:%d:%s' % (i, sk, i + 1, k), half(i, nw)))
             for i in range(1, nc + 1):
-                for k in err_kinds[:2]:
+                for k in err_kinds:      # every error kind at close too (EINTR from close is still a failed save)
                     jobs.append((vi, so, bname, content, edit, want, cmd, 'close:%d:%s' % (i, k), half(i, nc)))
     res = pmap(fault_case, jobs)
     fired = 0
